@@ -207,6 +207,8 @@ def templates():
     # two collectors side by side: flushing one leaves what the other holds (and its references) alone
     p = [S(), node("collect", ups=[1]), node("map", f="inc", ups=[1]), node("collect", ups=[3])]; _sink(p, 2); _sink(p, 4)
     T.append(("two_collects", p))
+    p = [S(), node("collect", b1=True, ups=[1]), node("map", f="inc", ups=[1]), node("collect", b1=True, ups=[3])]; _sink(p, 2); _sink(p, 4)
+    T.append(("two_collects_own_cache", p))
     # feedback edge guarded by unique: s -> union(s, g) -> unique -> map(dbl)=g -> back into union
     p = [S(), node("union", ups=[1, 4]), node("unique", f="id", m=0, b1=True, ups=[2]),
          node("map", f="dm3", ups=[3])]; _sink(p, 3)
